@@ -25,7 +25,10 @@ ObjName(c, k) == FileName(c.mode, c.rowf, c.nalg + c.nlog + k, Gen(SOBJ, k))
 OrigNames(c) == {VarName(c, i) : i \in 1..c.nv} \cup {ConName(c, i) : i \in 1..c.nalg}
                 \cup {LogConName(c, k) : k \in 1..c.nlog} \cup {ObjName(c, k) : k \in 1..c.nobj}
 
-Derived(c, nm) == \E o \in OrigNames(c) : IsPrefix(o, nm)
+\* an SOS set comes from suffixes, not from a named item: the set and what is made of it are named after the
+\* set ("SOS1_<n>_", "SOS2_<n>_..."), which counts as the item it comes from
+SOSPREFIX == <<83, 79, 83>>
+Derived(c, nm) == (\E o \in OrigNames(c) : IsPrefix(o, nm)) \/ IsPrefix(SOSPREFIX, nm)
 
 \* delivered: c.vnames (Seq of names), c.cnames (Seq of names of ALL delivered constraints, any type),
 \* c.rownames (names of the linear-group rows, aligned with c.rows), c.onames (objective names)
